@@ -1,7 +1,7 @@
 (* C11 — conditional compilation selects exactly the branches C semantics select.
    Property theorems only. *)
 From Coq Require Import List NArith Bool String Lia.
-From RV Require Import Cond CondProofs CondParserProofs GenCond CondIncl CondInclProofs XTree.
+From RV Require Import Cond CondProofs CondParserProofs GenCond CondIncl CondInclProofs XTree XTreeFile CondSubst.
 Import ListNotations.
 
 (* ---- table obligations (regenerated from the source on every run) ---- *)
@@ -203,6 +203,40 @@ Example C11_tree_example_value :
 Proof. vm_compute. reflexivity. Qed.
 Local Close Scope string_scope.
 
+
+(* ---- a whole entry file that is such a tree (preprocess_initial_file): accepted with exactly the macro table and the
+        output of the selected leaves, or rejected with the first rejection among them - never with a chain diagnostic ---- *)
+Theorem C11_tree_file :
+  forall (evalb : env -> list ctok -> bool) (files : string -> option (list xline)) (depth : nat) (entry : string)
+         (its : xitems) (e0 : env),
+    files entry = Some (xflat_items its) -> ok_items switch evalb files depth entry its ->
+    xrun_file switch (evalc evalb) files depth entry e0 =
+    match xsem_items switch evalb files depth entry (e0, [], []) its with
+    | inl (e, o, _) => inl (e, o)
+    | inr err => inr err
+    end.
+Proof. exact (tree_file switch C11_switch_table). Qed.
+
+(* ---- conditions with macros and `defined` (any depth): macro substitution followed by the condition parser yields the
+        reference unsigned-64 value of the condition in which every macro with a numeric replacement stands for that
+        number, every other identifier for 0, and `defined X` / `defined(X)` for 1 or 0 ---- *)
+Theorem C11_condition_with_macros_correct :
+  forall (e : env) (d : dexpr), dwf e d ->
+    eval_cond e (rawd d) = inl (negb (N.eqb (ceval (resolve e d)) 0)).
+Proof. exact eval_cond_correct. Qed.
+
+Local Open Scope string_scope.
+Definition ex_env : env := [("A", Some 2%N); ("B", None)].
+(* defined(B) && A == 2 || ! defined U < X *)
+Definition ex_dexpr : dexpr :=
+  DBin BOr (DBin BAnd (DDefined "B" true) (DBin BEq (DId "A") (DNum 2)))
+           (DNot (DBin BLt (DDefined "U" false) (DId "X"))).
+Example C11_condition_example :
+  dwf ex_env ex_dexpr /\
+  rawd ex_dexpr = [KId "defined"; KLP; KId "B"; KRP; KAnd; KId "A"; KEq; KNum 2; KOr; KNot; KLP; KId "defined"; KId "U"; KLt; KId "X"; KRP]%N /\
+  eval_cond ex_env (rawd ex_dexpr) = inl true.
+Proof. split; [cbn; repeat split; discriminate | split; vm_compute; reflexivity]. Qed.
+Local Close Scope string_scope.
 Print Assumptions C11_switch_table.
 Print Assumptions C11_apply_table.
 Print Assumptions C11_level_table.
@@ -219,3 +253,5 @@ Print Assumptions C11_frame_not_include.
 Print Assumptions C11_frame_include_of_a_tree.
 Print Assumptions C11_frame_include_missing.
 Print Assumptions C11_skipped_region_is_erasable.
+Print Assumptions C11_condition_with_macros_correct.
+Print Assumptions C11_tree_file.
